@@ -2,7 +2,7 @@
    sumbool/sumor map to OCaml's; nat/N/positive stay Coq's inductives.  No Extract
    Constant / Extract Inductive directives of our own. *)
 From Coq Require Import ExtrOcamlBasic.
-From EB Require Import Base ListVec Diff Head Skip Tail Filter Sort PollLoop OVec OVecRun OVecDrain Obs ObsSpec ObsWaker Chain ObsConc AsyncLock AsyncGuard FullStack FullStackB ChainPoll.
+From EB Require Import Base ListVec Diff Head Skip Tail Filter Sort PollLoop OVec OVecRun OVecDrain Obs ObsSpec ObsWaker Chain ObsConc AsyncLock AsyncGuard FullStack FullStackB ChainPoll ChainPollB.
 Extraction Language OCaml.
 Extraction "model.ml"
   Diff.dmap Diff.apply Diff.ok_in Diff.apply_all Diff.apply_all_ok Diff.spec_nth Diff.oob
@@ -22,4 +22,4 @@ Extraction "model.ml"
   AsyncGuard.call_possible AsyncGuard.a_pad
   OVecRun.ginit OVecRun.gstep OVecDrain.c_gpoll OVecDrain.env_ops
   FullStack.fs_init FullStack.fstep FullStackB.fsb_init FullStackB.fstep_b
-  ChainPoll.gpoll ChainPoll.queue_inner.
+  ChainPoll.gpoll ChainPoll.queue_inner ChainPollB.gpoll_b ChainPollB.queue_inner_b.
